@@ -121,6 +121,9 @@ func normaliseExt(v any) string {
 		return "<nil>"
 	}
 	rv := reflect.ValueOf(v)
+	if rv.Kind() == reflect.Ptr && rv.IsNil() {
+		return "<nil>" // (a typed nil message is not the same answer as an empty message)
+	}
 	switch x := v.(type) {
 	case proto.Message:
 		b, _ := proto.MarshalOptions{Deterministic: true}.Marshal(x)
